@@ -36,6 +36,8 @@ pub struct Dump {
     pub out: BTreeMap<i64, Vec<i64>>,
     pub inc: BTreeMap<i64, Vec<i64>>,
     pub indexes: BTreeMap<DbValue, u64>,
+    /// keys in the order `select indexes` lists them (empty when unknown: the model does not fix it)
+    pub index_order: Vec<DbValue>,
     pub index_hits: BTreeMap<(DbValue, DbValue), BTreeSet<i64>>,
 }
 
@@ -172,6 +174,7 @@ pub fn dump<S: StorageData>(db: &DbImpl<S>, probe: &Probe) -> Result<Dump, Strin
                         DbValue::I64(n) => *n as u64,
                         _ => 0,
                     };
+                    d.index_order.push(kv.key.clone());
                     if d.indexes.insert(kv.key.clone(), n).is_some() {
                         return Err(format!("select indexes lists key {:?} twice", kv.key));
                     }
@@ -331,6 +334,9 @@ pub fn diff(a: &Dump, b: &Dump, exact: bool) -> Option<(String, String)> {
     }
     if a.indexes != b.indexes {
         return Some(("index_listing".into(), format!("{:?} vs {:?}", a.indexes, b.indexes)));
+    }
+    if exact && !a.index_order.is_empty() && !b.index_order.is_empty() && a.index_order != b.index_order {
+        return Some(("index_listing_order".into(), format!("{:?} vs {:?}", a.index_order, b.index_order)));
     }
     if a.index_hits != b.index_hits {
         for (k, va) in &a.index_hits {
